@@ -33,25 +33,41 @@ class C06(DiffProperty):
             "1792 generic), counts at chunk multiples of 30 +-1, duplicate/cross-kind/builtin/alias/short names, ids at every range end; "
             "a case is non-trivial when it registers something or looks something up; distinct = distinct case text")
     modelled = ("mptcore/types/type_traits.c (all entry points), types/alias_typeid.c, types/type_int.c, message/msgvalfmt.c transcribed in "
-                "coq/C06/TypesModel.v over constants and tables regenerated from the source by harness/c06_probe.c (coq/C06/Gen_Types.v); "
+                "coq/C06/TypesModel.v (mechanism model M: slot table, positions, chunk lists) over constants and tables regenerated from the "
+                "source by harness/c06_probe.c (coq/C06/Gen_Types.v); abstract specification S in coq/C06/RegistrySpec.v (finite map id -> "
+                "(kind, description, optional name), finite map name -> id, one next-free counter per kind over the ranges of types.h; "
+                "fresh state built from the independent list g_ctype_sizes); abstraction function and output projection in RegistryAbs.v; "
                 "lazy table creation is modelled as done at start; malloc failure and the atexit clean-up are not modelled; "
-                "errno kinds are compared between code and model but not required by the specification")
+                "errno/error-code kinds and the raw positions of a sweep are compared between code and M but are not part of S")
     trusted = ["harness/c06_probe.c: the list of C types each named built-in id stands for (ctypes[]) is hand-written from types.h; everything else "
                "in Gen_Types.v is read from the included type_traits.c or obtained by calling the code",
                "harness/c06_types.c runs each case in a forked child of a parent that never touches the registry; it reads "
                "interface_pos/dynamic_pos/chunk fill directly from the static variables of the included type_traits.c",
                "malloc/calloc succeed"]
-    level_text = ("proof: Coq theorems over ALL histories of registry operations (invariant + induction over the operation list) on a "
-                  "mechanism-level model of type_traits.c built over constants/tables regenerated from the source: C06_ids_unique, "
-                  "C06_issued_fresh, C06_ids_in_kind_range, C06_lookup_stable, C06_name_id_bijection, C06_dup_or_short_refused, "
-                  "C06_exhaustion_preserves, C06_exhausted_refused, C06_no_fault, and C06_builtin_sizes_correct / C06_helpers_consistent as finite sweeps over the generated built-in tables (re-checked whenever a "
-                  "table changes; the range/capacity facts the proofs rest on are re-checked by computation as well); the model and an independent finite-map specification are run against an ASan/UBSan build of the current "
-                  "tree on every run (fresh process per history, capacities reached and exceeded, all ids 0..0x1100 swept)")
+    level_text = ("proof: Coq theorems over ALL histories of registry operations (invariant + induction over the operation list). "
+                  "(1) Refinement M [= S: C06_step_refines_spec (for every state satisfying the invariant and EVERY operation - add basic / "
+                  "traits / interface / metatype accepted, refused and exhausted, lookups by id, by name full and length-limited, alias "
+                  "descriptions, helpers, sweep - the abstract specification run on abs(state) reaches abs(new state) with the same "
+                  "observation), C06_history_refines_spec (induction over operation lists), C06_fresh_state (abs of the mechanism's "
+                  "initial tables IS the specification's initial registry built from the independent sizeof list: computed over the "
+                  "regenerated tables for all ids 0..g_ValueMax) and C06_fresh_refines_spec; the only hypothesis is op_wf: an id argument "
+                  "fits uintptr_t. (2) The property on S: C06_spec_ids_unique, C06_spec_ids_in_kind_range, C06_spec_lookup_stable, "
+                  "C06_spec_refusal_preserves, transferred to the mechanism by C06_ids_unique_via_spec, C06_ids_in_kind_range_via_spec, "
+                  "C06_lookup_stable_via_spec, C06_builtins_exactly_listed (every id the fresh registry describes is a listed built-in with "
+                  "the sizeof of its C type AND every listed one is described so after every history). (3) Direct theorems on the mechanism "
+                  "model, no op_wf: C06_ids_unique, C06_issued_fresh, C06_ids_in_kind_range, C06_lookup_stable, C06_name_id_bijection, "
+                  "C06_dup_or_short_refused, C06_exhaustion_preserves, C06_exhausted_refused, C06_no_fault, C06_builtin_sizes_correct / "
+                  "C06_helpers_consistent (finite sweeps over the generated tables). All facts about generated bounds/tables are re-checked "
+                  "by computation whenever a table changes. M and S are both run against an ASan/UBSan build of the current tree on every "
+                  "run (fresh process per history, capacities reached and exceeded, all ids 0..0x1100 swept): I vs M token by token, "
+                  "I vs S after dropping error kinds and mechanism positions")
     level_note = ("trusted: Coq kernel; hand transcription of type_traits.c/alias_typeid.c/type_int.c/msgvalfmt.c (validated by the "
                   "correspondence run, not verified); the probe's list of C types behind the built-in ids; extraction and OCaml driver; "
                   "harness. Not modelled: malloc failure, atexit clean-up, C++ wrappers (mpt++/type_traits_wrap.cpp). "
-                  "All theorems are closed under the global context (no axioms).")
-    technique = "Coq invariant proof over operation histories + generated-table sweep + differential correspondence check"
+                  "The refinement theorems assume op_wf (ids < 2^g_WordBits, i.e. representable as uintptr_t); finite maps of S are "
+                  "sorted association lists (canonical, so state refinement is an equation). "
+                  "All 24 theorems are closed under the global context (no axioms).")
+    technique = "Coq refinement proof (mechanism model [= finite-map specification, every operation, all histories) + invariant proofs + generated-table sweep + differential correspondence check"
     assumptions = ["malloc/calloc succeed", "the caller keeps registered generic traits objects alive and unchanged",
                    "single-threaded use of the registry"]
 
